@@ -25,6 +25,7 @@ package index
 //@   ensures 1 <= lineNumber && lineNumber <= len(nls.locs)+1
 //@   ensures forall k int :: 0 <= k && k < lineNumber-1 ==> nls.locs[k] < offset
 //@   ensures forall k int :: lineNumber-1 <= k && k < len(nls.locs) ==> nls.locs[k] >= offset
+//@   ensures (lineNumber-1 < len(nls.locs) ==> nls.locs[lineNumber-1] >= offset) && (lineNumber >= 2 ==> nls.locs[lineNumber-2] < offset)
 //@   assigns nothing
 
 //@ func index.(newlines).getLines
@@ -79,7 +80,7 @@ package index
 //@   assigns file.LineMatches, file.LineMatches[*].LineFragments
 
 // Chunk variant: the part of the contract that limitMatches relies on.
-//@ abstract func nlFrom(c []byte, a int) int reads Int
+//@ abstract func nlFrom(c []byte, a int) int reads bytes
 //@ axiom nlFromEnd: forall c []byte, a int :: a >= len(c) ==> nlFrom(c, a) == 0
 //@ axiom nlFromStep: forall c []byte, a int :: 0 <= a && a < len(c) ==> nlFrom(c, a) == nlFrom(c, a+1) + ite(c[a] == '\n', 1, 0)
 
@@ -246,3 +247,65 @@ package index
 //@     invariant forall k int :: 0 <= k && k <= $i && repos[k].ID == repoID ==> repos[k].Tombstone == tombstone
 //@     decreases len(repos) - $i
 //@   ensures result == nil ==> !effectFailed
+
+// ---------------------------------------------------------------------------
+// C03 (continued): line ranges and chunks
+// ---------------------------------------------------------------------------
+
+// isLineOf(nls, o, L): L is the 1-based number of the line containing offset o
+// (a newline byte belongs to the line it ends). The two boundary instances are
+// stated explicitly besides the quantified form.
+//@ pure func isLineOf(nls newlines, o int, L int) bool = 1 <= L && L <= len(nls.locs)+1 && (forall k int :: 0 <= k && k < L-1 ==> nls.locs[k] < o) && (forall k int :: L-1 <= k && k < len(nls.locs) ==> nls.locs[k] >= o) && (L-1 < len(nls.locs) ==> nls.locs[L-1] >= o) && (L >= 2 ==> nls.locs[L-2] < o)
+
+//@ func index.(newlines).offsetRangeToLineRange
+//@   requires okNL(nls)
+//@   ensures isLineOf(nls, startOffset, startLine)
+//@   ensures isLineOf(nls, max(startOffset, max(endOffset, 1) - 1), endLine)
+//@   ensures startLine <= endLine
+//@   assigns nothing
+
+// Candidates come sorted by offset, non-overlapping and inside the file (what
+// gatherMatches guarantees). Result: every chunk has 1 <= firstLine <=
+// lastLine, consecutive chunks are separated by more than twice the context
+// (so their context windows never touch: chunks of a file never overlap), and
+// a chunk's firstLine is the line of its minOffset.
+//@ pure func okCands(ms []*candidateMatch, nls newlines) bool = (forall a int :: 0 <= a && a < len(ms) ==> ms[a] != nil && ms[a].byteOffset + ms[a].byteMatchSz <= nls.fileSize) && (forall a, b int :: 0 <= a && a < b && b < len(ms) ==> ms[a].byteOffset <= ms[b].byteOffset)
+
+//@ func index.chunkCandidates
+//@   requires okNL(newlines) && numContextLines >= 0 && len(newlines.locs) < 4294967294
+//@   requires okCands(ms, newlines)
+//@   loop 1:
+//@     invariant -1 <= $i && $i < len(ms)
+//@     invariant chunks == nil || fresh(chunks)
+//@     invariant forall k int :: 0 <= k && k < len(ms) ==> ms[k] == old(ms[k])
+//@     invariant forall c int :: 0 <= c && c < len(chunks) ==> fresh(chunks[c].candidates) && len(chunks[c].candidates) >= 1
+//@     invariant forall c int :: 0 <= c && c < len(chunks) ==> 1 <= chunks[c].firstLine && chunks[c].firstLine <= chunks[c].lastLine && chunks[c].lastLine <= len(newlines.locs) + 1
+//@     invariant forall c int :: 0 <= c && c + 1 < len(chunks) ==> chunks[c].lastLine + numContextLines < chunks[c+1].firstLine - numContextLines
+//@     invariant forall c int :: 0 <= c && c < len(chunks) ==> isLineOf(newlines, chunks[c].minOffset, chunks[c].firstLine)
+//@     invariant $i >= 0 ==> len(chunks) >= 1 && chunks[len(chunks)-1].minOffset <= ms[$i].byteOffset
+//@     invariant $i < 0 ==> len(chunks) == 0
+//@     decreases len(ms) - $i
+//@   ensures (len(result) == 0) == (len(ms) == 0)
+//@   ensures forall c int :: 0 <= c && c < len(result) ==> 1 <= result[c].firstLine && result[c].firstLine <= result[c].lastLine && len(result[c].candidates) >= 1
+//@   ensures forall c int :: 0 <= c && c + 1 < len(result) ==> result[c].lastLine + numContextLines < result[c+1].firstLine - numContextLines
+//@   ensures forall c int :: 0 <= c && c < len(result) ==> isLineOf(newlines, result[c].minOffset, result[c].firstLine)
+
+// Columns: columnHelper.get returns 1 + the number of runes between the line
+// start and the offset, whether it counts from the line start or continues
+// from the previous call. rc(d,a,b) names utf8.RuneCount(d[a:b]); rune counts
+// add up only across rune boundaries (abstract predicate; match offsets are
+// rune boundaries).
+//@ abstract func rc(d []byte, a int, b int) int reads bytes
+//@ abstract func isBoundary(d []byte, a int) bool reads bytes
+//@ axiom rcDef: forall d []byte, a, b int :: {rc(d, a, b)} 0 <= a && a <= b && b <= len(d) ==> rc(d, a, b) == runecount(d[a:b])
+//@ axiom rcAdd: forall d []byte, a, b, c int :: {rc(d, a, b), rc(d, b, c)} 0 <= a && a <= b && b <= c && c <= len(d) && isBoundary(d, b) ==> rc(d, a, c) == rc(d, a, b) + rc(d, b, c)
+//@ pure func okColState(c *columnHelper) bool = 0 <= c.lastLineOffset && c.lastLineOffset <= c.lastOffset && c.lastOffset <= len(c.data) && isBoundary(c.data, c.lastOffset) && c.lastRuneCount == rc(c.data, c.lastLineOffset, c.lastOffset)
+
+//@ func index.(*columnHelper).get
+//@   requires c != nil && len(c.data) < 4294967295 && okColState(c)
+//@   requires 0 <= lineOffset && lineOffset <= offset && offset <= len(c.data) && isBoundary(c.data, offset)
+// (instantiation hint, a consequence of rcDef: names the count the incremental branch computes)
+//@   requires rc(c.data, min(c.lastOffset, offset), offset) >= 0
+//@   ensures result == 1 + old(rc(c.data, lineOffset, offset))
+//@   ensures okColState(c) && c.data == old(c.data)
+//@   assigns c.lastLineOffset, c.lastOffset, c.lastRuneCount
